@@ -206,6 +206,9 @@ func cmdCheck(args []string) int {
 		w.rep = rep
 		ex.mu.Lock()
 		neg := ex.tb.And(ob.PC, ex.tb.Not(ex.tb.SimplifyUnder(ob.PC, ob.Claim)))
+		if !neg.IsFalse() {
+			neg = ex.tb.And(append(append([]*Term(nil), ex.globalFacts...), neg)...)
+		}
 		if neg.IsFalse() {
 			ex.mu.Unlock()
 			rep.Status = "discharged"
